@@ -108,7 +108,7 @@ def iface_link_lemmas(U, cfg, hyps, shape_facts, axioms):
     if cfg['with_i'] and cfg['W'] is None:
         AXC = list(axioms) + T.axioms('chain', 'smul')
         C = lambda k: X.lch(Ms, k + 1) == T.chain(A, cfg['ix'], k)
-        U.lemma('left-partial-chain-is-chain(Y,i,.).base', ctx, C(z3.IntVal(0)), axioms=AXC, mode='ematch', kind='lemma-base')
+        U.lemma('left-partial-chain-is-chain(Y,i,.).base', ctx, C(z3.IntVal(0)), axioms=AXC, mode='ematch', kind='lemma-base', extra=[X.lch(Ms, 0) == T.sc(1)])
         U.lemma('left-partial-chain-is-chain(Y,i,.).step', ctx + [kk >= 1, kk < d, C(kk - 1)], C(kk), axioms=AXC, mode='ematch', kind='lemma-step')
         out.append(z3.ForAll([t_], z3.Implies(z3.And(0 <= t_, t_ < d), C(t_)), patterns=[T.chain(A, cfg['ix'], t_)]))
     if not cfg['with_i'] and cfg['W'] is not None:
@@ -116,7 +116,7 @@ def iface_link_lemmas(U, cfg, hyps, shape_facts, axioms):
         Wl = z3.Const('W!iface', XA.WL)                # the list of weight vectors as mean() sees it (definition of the spec constant)
         wdef = z3.ForAll([k_], Wl[k_] == cfg['W'](k_), patterns=[Wl[k_]])
         C = lambda k: X.lch(Ms, k + 1) == XA.wchain(A, Wl, k)
-        U.lemma('left-partial-chain-is-wchain(Y,P,.).base', ctx + [wdef], C(z3.IntVal(0)), axioms=AXC, mode='ematch', kind='lemma-base')
+        U.lemma('left-partial-chain-is-wchain(Y,P,.).base', ctx + [wdef], C(z3.IntVal(0)), axioms=AXC, mode='ematch', kind='lemma-base', extra=[X.lch(Ms, 0) == T.sc(1)])
         U.lemma('left-partial-chain-is-wchain(Y,P,.).step', ctx + [wdef, kk >= 1, kk < d, C(kk - 1)], C(kk), axioms=AXC, mode='ematch', kind='lemma-step')
         out.append(z3.ForAll([t_], z3.Implies(z3.And(0 <= t_, t_ < d), C(t_)), patterns=[XA.wchain(A, Wl, t_)]))
     return out
@@ -131,6 +131,11 @@ def _interface_unit(U, pcase, with_i, norm, ltr):
     spec = (lambda t: T.tr(X.lch(Ms, t))) if ltr else (lambda t: X.rch(Ms, t, d))         # the vector that phi[t] is a multiple of
     pos = (lambda t: d - t) if ltr else (lambda t: t)                                       # its position in the list DURING the sweep
     unit_scale = norm is None
+    core_at = (lambda t: d - 1 - t) if ltr else (lambda t: t)                               # the core consumed when list position t is written
+
+    def scale_step(kap, t):
+        """What one pass does to the scale factor (list positions during the sweep): nothing / times 1/n of the consumed core."""
+        return kap[t] == T.rmul(T.divf(1, z3.ToReal(T.d1(A[core_at(t)]))), kap[t + 1])
     pre = list(cfg['pre']) + [msdef]
     if norm == 'linalg':
         pre.append(z3.ForAll([t_], z3.Implies(z3.And(0 <= t_, t_ <= d), X.cnorm(spec(t_)) > 0),
@@ -150,10 +155,18 @@ def _interface_unit(U, pcase, with_i, norm, ltr):
                 ('scale-factors-positive (1 without normalisation, 1 at the start of the sweep)',
                  z3.And(kap[d] == 1, z3.ForAll([t_], z3.Implies(z3.And(d - j <= t_, t_ <= d), (kap[t_] == 1) if unit_scale else (kap[t_] > 0)),
                                                patterns=[kap[t_]]))),
+                ] + ([('natural: each pass divides the scale by the mode size of its core',
+                       z3.ForAll([t_], z3.Implies(z3.And(d - j <= t_, t_ < d), scale_step(kap, t_)), patterns=[kap[t_]]))] if norm == 'natural' else []) + (
+                    [('linalg: every written vector but the start has 2-norm 1',
+                      z3.ForAll([t_], z3.Implies(z3.And(d - j <= t_, t_ < d), X.cnorm(X.OptMat.mat(phi.arr[t_])) == 1), patterns=[phi.arr[t_]]))]
+                    if norm == 'linalg' else []) + [
                 ('arguments-untouched', z3.BoolVal(s.heap[Y.oid].arr is A and (cfg['Parr'] is None or s.heap[cfg['P'].oid].arr is cfg['Parr'])))]
 
     def havoc_hook(ex, h, pre_, j):
         h.ghost['kappa'] = ex.fresh('kappa', XA.RA)
+        # hint term: the partial chain that this pass produces (an instance of the shape lemma, which is in the context)
+        m = pos(d - 1 - j)
+        h.assume(z3.Implies(z3.And(0 <= m, m <= d), (T.cols(X.lch(Ms, m)) if ltr else T.rows(X.rch(Ms, m, d))) == r_(A, d, m)))
 
     def body_end(ex, s1, o1, j):
         if o1.kind not in ('normal', 'continue'):
@@ -194,6 +207,12 @@ def _interface_unit(U, pcase, with_i, norm, ltr):
         U.post('no-entry-is-None', hyp, z3.Not(X.OptMat.is_none(R.arr[tt])), axioms=AXI, mode='ematch')
         U.post('vector-k-is-the-scaled-partial-chain', hyp, R.arr[tt] == X.OptMat.some(T.smul(c, spec(tt))), axioms=AXI, mode='ematch')
         U.post('scale-is-1' if unit_scale else 'scale-is-positive', hyp, (c == 1) if unit_scale else (c > 0), axioms=AXI, mode='ematch')
+        notstart = [tt >= 1] if ltr else [tt < d]
+        if norm == 'natural':
+            U.post('natural: scale of vector k is 1/n of the consumed core times the scale of its neighbour', hyp + notstart,
+                   scale_step(kap, pos(tt)), axioms=AXI, mode='ematch')
+        if norm == 'linalg':
+            U.post('linalg: every vector has 2-norm 1', hyp + notstart, X.cnorm(X.OptMat.mat(R.arr[tt])) == 1, axioms=AXI, mode='ematch')
         U.post('vector-k-has-length-r_k', hyp, T.rows(X.OptMat.mat(R.arr[tt])) == r_(A, d, tt), axioms=AXI, mode='ematch')
         start = z3.IntVal(0) if ltr else d
         U.post('start-of-the-sweep-is-exactly-[1]', p, R.arr[start] == X.OptMat.some(T.sc(1)), axioms=AXI, mode='ematch')
